@@ -194,7 +194,7 @@ pub fn run(out: &mut Out) {
         let id = out.fresh_id("same");
         let n = rng.range(1, 7) as usize;
         let c = rng.range(4, 10) as usize;
-        let d = rng.range(0, 5) as usize;
+        let d = rng.range(1, 5) as usize;
         let seed = rng.next();
         let kind = *kind;
         if !out.selected(&id) {
